@@ -46,6 +46,7 @@ Inductive case :=
 | KMeta (els : list melem) (out : meta)
 | KTrace (npages : N) (sep : list N) (t : list call)   (* rules in `sep` are reported by their own KTraceRule case *)
 | KTraceRule (r : N) (t : list call)
+| KTracePrefix (sep : list N) (t : list call)   (* a prefix of a very long trace: guards only (acceptance is prefix closed) *)
 | KExpect (gen : list (list gitem)) (anchors : list (list name)) (links : list (list link)) (outline : list node).
 
 (* ---------------------------------------------------------------- equalities *)
@@ -204,6 +205,11 @@ Definition check (c : case) : N :=
   | KMeta els out => if meta_eqb (get_metadata els) out then 0 else 18
   | KTrace n sep t => trace_code n sep t
   | KTraceRule r t => trace_rule_code r t
+  | KTracePrefix sep t =>
+      match filter (fun x => negb (Protocol.mem (snd x) sep)) (trace_violations t) with
+      | (_, r) :: _ => 20 + r
+      | [] => 0
+      end
   | KExpect gen anchors links outline =>
       let ps := expect_pages gen in
       let '(ls, ans) := resolve ps in
@@ -230,7 +236,7 @@ Definition model_out (c : case) : mout :=
   | KGather _ boxes _ => MGather (map gather boxes)
   | KDoc zoom vpages geoms _ _ => MDoc (model_doc zoom vpages geoms) (model_outline vpages)
   | KMeta els _ => MMetaOut (get_metadata els)
-  | KTrace _ _ t | KTraceRule _ t => let '(v, st) := monitor t in MViol v (Protocol.npages st)
+  | KTrace _ _ t | KTraceRule _ t | KTracePrefix _ t => let '(v, st) := monitor t in MViol v (Protocol.npages st)
   | KExpect gen _ _ _ => let ps := expect_pages gen in
                          let '(ls, ans) := resolve ps in MDoc [] (model_outline ps)
   end.
